@@ -20,7 +20,8 @@ struct Calc : nop::Interface<Calc> {
   NOP_METHOD(Add, std::int32_t(std::int32_t a, std::uint8_t b));
   NOP_METHOD(Neg, std::int16_t(std::int16_t v));
   NOP_METHOD(Unbound, std::uint8_t(std::uint8_t v));
-  NOP_INTERFACE_API(Add, Neg, Unbound);
+  NOP_METHOD(Next, std::int32_t());
+  NOP_INTERFACE_API(Add, Neg, Unbound, Next);
 };
 
 // handler invocation log (ghost)
@@ -29,6 +30,11 @@ static std::int32_t g_add_a = 0;
 static std::uint8_t g_add_b = 0;
 static std::int16_t g_neg_v = 0;
 static int g_passthrough = 0;
+static int g_next_calls = 0;
+inline std::int32_t on_next() {
+  g_next_calls += 1;
+  return 77;
+}
 
 inline std::int32_t on_add(std::int32_t a, std::uint8_t b) {
   g_add_calls += 1;
@@ -52,6 +58,7 @@ using Receiver = nop::SimpleMethodReceiver<Ser, Des>;
 using Sender = nop::SimpleMethodSender<Ser, Des>;
 
 inline void reset_log() {
+  g_next_calls = 0;
   g_add_calls = 0;
   g_neg_calls = 0;
   g_passthrough = 0;
@@ -196,7 +203,7 @@ inline void lemma_two_calls() {
   Ser ser{&w};
   Des des{&r};
   Receiver receiver{&ser, &des};
-  auto bindings = nop::BindInterface(Calc::Add::Bind(on_add));
+  auto bindings = nop::BindInterface(Calc::Add::Bind(on_add), Calc::Next::Bind(on_next));
   auto s1 = bindings(&receiver);
   vt_check(static_cast<bool>(s1) && g_add_calls == 1 && g_add_a == a1 && g_add_b == b1, "first call dispatched with its own arguments");
   auto s2 = bindings(&receiver);
@@ -206,14 +213,55 @@ inline void lemma_two_calls() {
   fmt::init(rep);
   fmt::enc_int(rep, static_cast<std::int32_t>(static_cast<std::uint32_t>(a1) + b1));
   fmt::enc_int(rep, static_cast<std::int32_t>(static_cast<std::uint32_t>(a2) + b2));
+
   const std::size_t i = nondet<std::uint8_t>();
   vt_assume(i < rep.n);
   vt_check(w.pos == rep.n && reply[i] == rep.b[i], "exactly one reply per call, in order");
   vt_cover(true, "two calls lemma end");
 }
 
+// a method without arguments still carries an (empty) argument tuple on the wire; the call after it stays in frame
+inline void lemma_zero_arg() {
+  reset_log();
+  const std::int32_t a = nondet<std::int32_t>();
+  const std::uint8_t b = nondet<std::uint8_t>();
+  fmt::Out req;
+  fmt::init(req);
+  fmt::enc_uint(req, Calc::Next::Selector);
+  fmt::enc_header(req, FMT_ARY, 0);
+  enc_add_request(req, Calc::Add::Selector, a, b);
+  const std::size_t cut = nondet<std::uint8_t>();
+  const std::size_t n = cut < req.n ? cut : req.n;
+  std::uint8_t reply[fmt::kCap];
+  SpecReader r;
+  r.Init(req.b, n);
+  SpecWriter w;
+  w.Init(reply, sizeof reply);
+  Ser ser{&w};
+  Des des{&r};
+  Receiver receiver{&ser, &des};
+  auto bindings = nop::BindInterface(Calc::Add::Bind(on_add), Calc::Next::Bind(on_next));
+  auto s1 = bindings(&receiver);
+  if (n >= 11) {  // selector (9 bytes: U64 class) + empty tuple (2 bytes) arrived whole
+    vt_check(static_cast<bool>(s1) && g_next_calls == 1 && g_add_calls == 0, "the zero-argument method dispatches to its handler, once");
+    vt_check(r.pos == 11, "the zero-argument call consumed exactly its own request, including the empty argument tuple");
+    auto s2 = bindings(&receiver);
+    if (n == req.n) {
+      vt_check(static_cast<bool>(s2) && g_add_calls == 1 && g_add_a == a && g_add_b == b, "the call after a zero-argument call is in frame and gets its own arguments");
+      vt_check(r.pos == req.n, "both requests consumed exactly");
+    } else {
+      vt_check(!static_cast<bool>(s2) && g_add_calls == 0, "a truncated second request is rejected and runs no handler");
+    }
+  } else {
+    vt_check(!static_cast<bool>(s1) && g_next_calls == 0 && w.pos == 0, "a truncated zero-argument request is rejected: no handler, no reply");
+  }
+  vt_cover(n == req.n, "both calls whole reached");
+  vt_cover(n == 10, "cut inside the empty argument tuple reached");
+}
+
 }  // namespace vt
 
+VT_HARNESS(h_rpc_zero_arg) { vt::lemma_zero_arg(); }
 VT_HARNESS(h_rpc_dispatch) { vt::lemma_dispatch(); }
 VT_HARNESS(h_rpc_invoke) { vt::lemma_invoke(); }
 VT_HARNESS(h_rpc_two_calls) { vt::lemma_two_calls(); }
